@@ -182,7 +182,7 @@ def task_wide(t):
         U = Universe(names)
         b = sweep.Builder(src, U)
         den = O.Den(traw, U)
-        for fu in U.all_functions(names):
+        for fu in sweep.wide_functions(U, names):
             if focus is not None and sweep.norm([lv, fu]) != sweep.norm(focus):
                 continue
             if len(U.support(fu)) < 2:
@@ -239,6 +239,8 @@ def plan(tier):
         ts.append(('w', 12, 2, tperm, 0, 1, None))
         for si in range(8):
             ts.append(('w', 12, 3, tperm, si, 8, None))
+        for si in range(4):
+            ts.append(('w', sweep.XWIDE, 5, tperm, si, 4, None))
     if tier == 'quick':
         for soi in range(6):
             for toi in range(6):
